@@ -9,7 +9,7 @@ from .. import runprops as P
 
 PROP = "C02"
 PROP_V = "theories/props/C02.v"
-MODEL_AREAS = ('front', 'tc', 'run')
+MODEL_AREAS = ('front', 'tc', 'run', 'rtcheck')
 POLARIZED = ("async", "sync")
 
 
